@@ -113,7 +113,7 @@ def toy_operators(rng, mix, adapt):
             ops.append({"id": "op.dirichlet_view", "type": "DirichletOperator", "parameters": "kp.freqs",
                         "weight": w(), "scaler": round(rng.uniform(20.0, 200.0), 1),
                         "target_acceptance_probability": 0.24, "disable_adaptation": da})
-        elif k in ("hmc", "hmc_adaptive", "hmc_rate", "hmc_dual", "hmc_mass", "hmc_mass_dense"):
+        elif k in ("hmc", "hmc_adaptive", "hmc_rate", "hmc_dual", "hmc_mass", "hmc_mass_dense", "hmc_bounded"):
             op = {"id": "op." + k, "type": "HMCOperator", "joint": "joint", "parameters": ["b", "z"],
                   "weight": w(), "target_acceptance_probability": 0.8, "disable_adaptation": da,
                   "integrator": {"id": k + ".leapfrog", "type": "LeapfrogIntegrator",
@@ -131,6 +131,13 @@ def toy_operators(rng, mix, adapt):
                 op["adaptors"].append({"id": k + ".adaptor", "type": "AdaptiveStepSize",
                                        "integrator": k + ".leapfrog",
                                        "target_acceptance_probability": 0.8})
+            if k == "hmc_bounded":
+                # a positive parameter sampled WITHOUT an unconstraining transform, bold steps: trajectories leave the
+                # support now and then, the evaluation raises, the move is retried with a new momentum
+                op["parameters"] = ["a"]
+                op["mass_matrix"]["tensor"] = [1.0, 1.0, 1.0]
+                op["integrator"]["step_size"] = round(rng.uniform(0.25, 0.45), 3)
+                op["integrator"]["steps"] = rng.choice([3, 5])
             if k == "hmc_rate" and adapt:
                 # step size driven by the operator's running acceptance RATE (accepted / own calls)
                 op["integrator"]["step_size"] = round(rng.uniform(0.02, 0.08), 3)
@@ -303,6 +310,7 @@ def plan(tier, seed):
     add("toy", ["sliding", "hmc_adaptive", "dirichlet"], True, n(120, 800), 1)
     add("toy", ["scaler", "hmc_dual"], True, n(120, 800), 2)
     add("toy", ["sliding", "hmc_rate", "scaler"], True, n(150, 800), 1)
+    add("toy", ["hmc_bounded", "sliding"], False, n(150, 800), 1)
     add("toy", ["scaler_transformed", "sliding"], True, n(100, 400), 1)
     add("toy", ["scaler_cat", "sliding"], True, n(100, 400), 1)
     add("toy", ["hmc_mass", "scaler"], True, n(80, 400), 1)
@@ -548,6 +556,35 @@ class Recorder:
                 return v
 
             ham.kinetic_energy = kinetic_energy
+
+            def k_true(pm):
+                torch = rec.torch
+                try:
+                    M = op._mass_matrix.tensor.detach().to(torch.float64)
+                    pm = pm.detach().to(torch.float64)
+                    return 0.5 * float((pm * pm / M).sum()) if M.dim() == 1 else \
+                        0.5 * float(pm @ torch.linalg.solve(M, pm))
+                except Exception:
+                    return float("nan")
+            # every momentum DRAWN (a trajectory that fails is discarded and a new momentum is drawn) and every
+            # momentum an integration RETURNS: the Hastings term is K(last drawn) - K(last returned)
+            o_samp = ham.sample_momentum
+
+            def sample_momentum(mass_matrix):
+                pm = o_samp(mass_matrix)
+                if rec.cur is not None and rec.phase == "step":
+                    rec.cur.setdefault("k_drawn", []).append(k_true(pm))
+                return pm
+            ham.sample_momentum = sample_momentum
+            integ = op._integrator
+            icls = integ.__class__
+
+            def icall(self_, *a, **kw):
+                pm = icls.__call__(self_, *a, **kw)
+                if rec.cur is not None and rec.phase == "step":
+                    rec.cur.setdefault("k_returned", []).append(k_true(pm))
+                return pm
+            integ.__class__ = type(icls.__name__, (icls,), {"__call__": icall})
 
     def _decided(self, what, op):
         c = self.cur
@@ -1084,6 +1121,14 @@ def _check_proposal(add, run, info, c, k, d, lay):
                 if not close(h, k0 - k1, 1e-12, 1e-12):
                     add("C15:hastings:HMCOperator", f"iteration {k + 1} ({c['op_id']}): Hastings term {h!r} but "
                         f"K0 - K1 = {k0 - k1!r}", "hastings", k)
+                kd, kr = c.get("k_drawn", []), c.get("k_returned", [])
+                d["hmc_trials"] = len(kd)
+                if kd and kr and math.isfinite(kd[-1]) and math.isfinite(kr[-1]) and \
+                        not close(h, kd[-1] - kr[-1], 1e-8, 1e-9):
+                    add("C15:hastings:HMCOperator:momentum-of-the-trajectory",
+                        f"iteration {k + 1} ({c['op_id']}): Hastings term {h!r} but the trajectory that was kept started "
+                        f"with the momentum drawn last ({len(kd)} drawn, {len(kd) - 1} trajectories discarded) and "
+                        f"K(drawn) - K(returned) = {kd[-1] - kr[-1]!r}", "hastings", k)
                 kt = c.get("kin_true", [])
                 if len(kt) >= 2 and math.isfinite(kt[-2]) and math.isfinite(kt[-1]) and \
                         not close(h, kt[-2] - kt[-1], 1e-8, 1e-9):
@@ -1530,6 +1575,8 @@ def run(tier, seed, replay=None):
                                              logger_rows=len(r["log_rows"]),
                                              carried_log_joint_observed=len(r["printed"])) for r in state["runs"]],
         traces_validated_against_impl=stats["records"], transitions_recorded=nrec,
+        hmc_moves_kept_after_discarded_trajectories=sum(1 for ds in state["derived"] for d in ds
+                                                        if d.get("hmc_trials", 0) > 1),
         chain_replays=stats["chain_replays"], undecided_near_ties=stats["undecided_near_ties"],
         model_undefined=stats["model_undefined"], records_not_replayed=skipped,
         translator_units=units))
